@@ -200,8 +200,8 @@ def forward_filtering_backward_sampling(
 def latent_marginals(config: DiscreteHMMConfiguration, observation_sequence):
     init = int(config.linear_grid_dim / 2)
     initial_distribution = tfd.Categorical(logits=config.transition_tensor()[init, :])
-    transition_distribution = tfd.Categorical(logits=config.transition_tensor)
-    observation_distribution = tfd.Categorical(logits=config.observation_tensor)
+    transition_distribution = tfd.Categorical(logits=config.transition_tensor())
+    observation_distribution = tfd.Categorical(logits=config.observation_tensor())
     hmm = tfd.HiddenMarkovModel(
         initial_distribution,
         transition_distribution,
